@@ -116,6 +116,8 @@ CntKinds == {"cnt-1", "cnt+1", "cntfd", "cntfe", "cntffmax", "cntffbig", "cntneg
 VecKinds == {"vec+1", "vec-1"}        \* the vector itself one element longer (the last one repeated) / shorter, count adjusted
 LenKinds == {"lenover1", "lenfd", "lenfe", "lenff"}
 ValKinds == {"val+1", "val+2", "val-1", "valfd", "valfe", "valff"}
+\* for every CompactSize field, in the 9-byte form: 2^63-1-k (positive as int64; offset + value wraps), 2^63, 2^62
+BigKinds == {"x63m0", "x63m1", "x63m8", "x63m80", "x63m89", "x63m100", "x63", "x62"}
 FrameKinds == {"badmagic", "badsum", "oversize", "encflag", "encflag0", "lenover1", "cmdfull"}
 
 Cls(c, k, f) == [cmd |-> c, k |-> k, f |-> f]
@@ -133,6 +135,7 @@ Classes(c) ==
        \cup ({Cls(c, d, i) : i \in Idx(g, {"C"}), d \in CntKinds} \ {Cls(c, "cnt-1", i) : i \in {j \in Idx(g, {"C"}) : g[j].n = 0}})
        \cup {Cls(c, d, i) : i \in {j \in Idx(g, {"C"}) : g[j].n >= 1}, d \in VecKinds}
        \cup {Cls(c, d, i) : i \in Idx(g, {"L"}), d \in LenKinds}
+       \cup {Cls(c, d, i) : i \in Idx(g, {"C", "L", "V"}), d \in BigKinds}
        \cup ({Cls(c, d, i) : i \in Idx(g, {"V"}), d \in ValKinds} \ {Cls(c, "val-1", i) : i \in {j \in Idx(g, {"V"}) : g[j].n = 0}})
 
 FullAlphabet == UNION {Classes(c) : c \in CmdSet}
